@@ -11,6 +11,7 @@
 //!   evmcsv <b> <tp>           get_evm_network_from_env() with EVM_NETWORK=local and the local testnet CSV file holding <b>;
 //!                             tp = na (not UTF-8) | per comma-separated part two bits (valid URL, valid address) joined by `,` -> ok custom | err | panic
 //!   evmcustom <s> <s> <s> <tp>  EvmNetwork::new_custom (the `evm-custom` sub-command arguments of antnode / antctl) -> ok custom | panic   (known finding K-u)
+//!   evmget <s> <s> <s> <tp>   evmlib::utils::get_evm_network (the wasm binding's way to the same `CustomNetwork::new`) -> ok custom | panic   (K-u, second entry)
 //!   atto <s>                  AttoTokens::from_str -> ok <atto, decimal> | err units|remainder|loss|excessive | panic
 //!                             (an intermediate value that wraps is an overflow: the oracle recomputes the amount with big integers)
 //!   natpeer <s> <tp>          nat-detection's SERVER value parser `parse_peer_addr` (bin-private: source text compiled in by the build script);
@@ -18,6 +19,10 @@
 //!   metricslog <b> <tp>       the metrics tool's `get_metric_servers` (bin-private, compiled in likewise) on a directory whose antnode.log holds <b>;
 //!                             tp = per matching line, in order: `n` node-id line, `u1`/`u0` metrics-server line whose URL parses / does not,
 //!                             `nu1`/`nu0` both on one line; up to the first non-UTF-8 line (`-` = none) -> ok <n urls> | err | panic
+//!   promcfg <s> <tp>          the metrics tool's whole pipeline on a log holding a node-id line and `Metrics server on <s>`:
+//!                             `get_metric_servers`, then `build_prometheus_config` (the consumer of the accepted URL);
+//!                             tp = bad | port | dflt | none (url crate called directly: unparsable / explicit port / only the
+//!                             scheme's default port / no port at all) -> ok <n scrape targets> | err | panic
 use common::{hex, unhex, Out, Rng};
 use libp2p::multiaddr::Protocol;
 use libp2p::Multiaddr;
@@ -46,9 +51,36 @@ mod antmetrics {
         path::Path,
     };
     use walkdir::WalkDir;
+    // the output records of the tool (main.rs), field for field: `build_prometheus_config` fills them
+    pub struct PrometheusConfig {
+        pub global: Global,
+        pub scrape_configs: Vec<ScrapeConfigs>,
+    }
+    pub struct Global {
+        pub scrape_interval: String,
+        pub evaluation_interval: String,
+    }
+    pub struct ScrapeConfigs {
+        pub job_name: String,
+        pub scrape_interval: String,
+        pub static_configs: Vec<StaticConfig>,
+    }
+    pub struct StaticConfig {
+        pub targets: Vec<String>,
+        pub labels: Labels,
+    }
+    pub struct Labels {
+        pub node_id: NodeId,
+    }
     include!(concat!(env!("OUT_DIR"), "/antmetrics_get_metric_servers.rs"));
     pub fn call(p: &Path) -> Result<usize> {
         get_metric_servers(p).map(|m| m.len())
+    }
+    /// the tool's pipeline: scan the logs, then build the Prometheus configuration -> the scrape targets
+    pub fn call_config(p: &Path) -> Result<Vec<String>> {
+        let servers = get_metric_servers(p)?;
+        let cfg = build_prometheus_config(servers);
+        Ok(cfg.scrape_configs.into_iter().flat_map(|s| s.static_configs).flat_map(|s| s.targets).collect())
     }
     pub const PREFIX: &str = LOG_FILENAME_PREFIX;
 }
@@ -212,7 +244,7 @@ pub fn exec(ws: &[&str], tmp: &Path, op: &mut String) -> Option<String> {
                 }
             })
         }
-        ["evmenv", a, b, c, ..] | ["evmcustom", a, b, c, ..] => {
+        ["evmenv", a, b, c, ..] | ["evmcustom", a, b, c, ..] | ["evmget", a, b, c, ..] => {
             let (Some(a), Some(b), Some(c)) = (s_of(a), s_of(b), s_of(c)) else { return Some("bad-op".into()) };
             if ![&a, &b, &c].iter().all(|s| env_safe(s)) {
                 return Some("bad-op".into());
@@ -220,6 +252,9 @@ pub fn exec(ws: &[&str], tmp: &Path, op: &mut String) -> Option<String> {
             *op = format!("{} {} {} {} {}{}{}", ws[0], ws[1], ws[2], ws[3], url_ok(&a) as u8, addr_ok(&b) as u8, addr_ok(&c) as u8);
             if ws[0] == "evmcustom" {
                 return Some(format!("ok {}", evm_name(&ant_evm::EvmNetwork::new_custom(&a, &b, &c))));
+            }
+            if ws[0] == "evmget" {
+                return Some(format!("ok {}", evm_name(&ant_evm::utils::get_evm_network(&a, &b, &c))));
             }
             std::env::remove_var("EVM_NETWORK");
             for (k, v) in EVM_VARS.iter().zip([&a, &b, &c]) {
@@ -312,13 +347,32 @@ pub fn exec(ws: &[&str], tmp: &Path, op: &mut String) -> Option<String> {
                 Err(_) => "err".into(),
             }
         }
+        ["promcfg", u, ..] => {
+            let Some(url) = s_of(u) else { return Some("bad-op".into()) };
+            if url.contains('\n') || url.contains('\r') {
+                return Some("bad-op".into());
+            }
+            let tp = match url::Url::parse(&url) {
+                Err(_) => "bad",
+                Ok(p) => if p.port().is_some() { "port" } else if p.port_or_known_default().is_some() { "dflt" } else { "none" },
+            };
+            *op = format!("promcfg {u} {tp}");
+            let dir = tmp.join("nodelogs");
+            let _ = std::fs::remove_dir_all(&dir);
+            std::fs::create_dir_all(&dir).expect("log dir");
+            std::fs::write(dir.join(antmetrics::PREFIX), format!("Node (PID: 1) with PeerId: 12D3KooWverif\nMetrics server on {url}\n")).expect("write log");
+            match antmetrics::call_config(&dir) {
+                Ok(t) => format!("ok {}", t.len()),
+                Err(_) => "err".into(),
+            }
+        }
         _ => return None,
     })
 }
 
 pub fn oracle(ws: &[&str], res: &str, line: &str, out: &mut Out) {
     match ws {
-        ["evmenv", _, _, _, tp] | ["evmcustom", _, _, _, tp] => {
+        ["evmenv", _, _, _, tp] | ["evmcustom", _, _, _, tp] | ["evmget", _, _, _, tp] => {
             // a custom network is only ever built from a well-formed URL and two well-formed addresses
             if res.starts_with("ok") && *tp != "111" {
                 out.oracle_fail("evm-custom-sound", line, &format!("a network was built from malformed parts ({tp}): {res}"));
@@ -462,6 +516,11 @@ pub fn generate(rng: &mut Rng, n: u64) -> Vec<String> {
     v.push(format!("metricslog {} x", hx("Metrics server on http://127.0.0.1:1/metrics\nNode (PID: 1) with PeerId: x\nMetrics server on garbage\n")));
     v.push(format!("metricslog {} x", hx("Metrics server on http://127.0.0.1:1/metrics\nMetrics server on garbage\n")));
     v.push("metricslog - x".into());
+    // round 6: the consumer of an accepted URL (`build_prometheus_config`): a URL on its scheme's default port has no `port()`
+    for u in ["http://127.0.0.1:80/metrics", "https://127.0.0.1:443/metrics", "http://127.0.0.1/metrics", "foo://127.0.0.1/metrics", "data:x", "mailto:a@b",
+              "http://127.0.0.1:4000/metrics", "http://127.0.0.1:0/metrics", "http://127.0.0.1:65535/metrics", "http://127.0.0.1:65536/metrics", "ws://h:80/", "ftp://h:21/", "garbage", ""] {
+        v.push(format!("promcfg {} x", hx(u)));
+    }
     v.push(format!("metricslog {} x", hex(&[b'x', b'\n', 0xff, b'\n', b'M'])));
     v.push(format!("metricslog {}{} x", hex(&[0xff, b'\n']), hx("Metrics server on garbage")));
     for s in ["", ",", ",,", "garbage", "/ip4/10.0.0.1/udp/1/quic-v1", "/ip4/10.0.0.1/udp/1/quic-v1,,/ip4/10.0.0.2/tcp/1", " /ip4/10.0.0.1/udp/1/quic-v1", "/ip4/10.0.0.1/udp/1/quic-v1\n"] {
@@ -538,7 +597,7 @@ pub fn generate(rng: &mut Rng, n: u64) -> Vec<String> {
                 if [&a, &b, &c].iter().all(|s| env_safe(s)) {
                     // new_custom on malformed parts is the known finding K-u: the random stream only feeds it well-formed parts
                     if rng.chance(1, 4) && url_ok(&a) && addr_ok(&b) && addr_ok(&c) {
-                        v.push(format!("evmcustom {} {} {} x", hx(&a), hx(&b), hx(&c)));
+                        v.push(format!("{} {} {} {} x", if rng.chance(1, 3) { "evmget" } else { "evmcustom" }, hx(&a), hx(&b), hx(&c)));
                     } else {
                         v.push(format!("evmenv {} {} {} x", hx(&a), hx(&b), hx(&c)));
                     }
@@ -584,6 +643,19 @@ pub fn generate(rng: &mut Rng, n: u64) -> Vec<String> {
                     b[i] = 0xff;
                 }
                 v.push(format!("metricslog {} x", hex(&b)));
+                if rng.chance(1, 3) {
+                    let scheme = *rng.pick(&["http", "https", "ws", "wss", "ftp", "foo", "file", "HTTP"]);
+                    let port = match rng.below(5) {
+                        0 => String::new(),
+                        1 => format!(":{}", rng.pick(&[0u32, 21, 80, 443, 65535, 65536])),
+                        _ => format!(":{}", rng.below(65536)),
+                    };
+                    let u = format!("{scheme}://{}{port}/metrics", rng.pick(&["127.0.0.1", "localhost", "[::1]", ""]));
+                    let u = if rng.chance(1, 5) { mutate(rng, &u) } else { u };
+                    if !u.contains('\n') && !u.contains('\r') {
+                        v.push(format!("promcfg {} x", hx(&u)));
+                    }
+                }
             }
         }
     }
